@@ -290,6 +290,14 @@ def discharge(ctx, site):
                         if canon(strip_casts(g[3])) == x and fold(g[2]) is not None and ((g[1] == "Le" and fold(g[2]) >= c) or (g[1] == "Lt" and fold(g[2]) >= c - 1)):
                             return True, "D8: the assertion's failing edge contradicts a dominating comparison"
     if kind.startswith(("explicit", "call:panic")):
+        # D10: every way into the panic is a comparison that the interval analysis (symbolic length bounds, loop invariants by
+        # bounded iteration) contradicts
+        try:
+            from .intervals import assertion_cannot_fail
+            if assertion_cannot_fail(ctx, site["bb"]):
+                return True, "D10: the assertion's failing comparisons contradict the value ranges at the test (interval analysis with the length as symbolic bound)"
+        except RecursionError:
+            pass
         # D9: `assert!((x & M) < C)` with M < C (or `<= C` with M <= C): a masked value cannot reach the bound
         for f in facts:
             if f[0] == "cmp" and f[1] in ("Ge", "Gt") and fold(f[3]) is not None:
